@@ -102,6 +102,15 @@ def Tree.sampleset (thr : K) : Tree K → Option (List K)
   | .scale m _ => m.sampleset thr
   | .redshift z m => (m.sampleset thr).map (fun w => w.map (· * (1 + z)))
 
+/-- `BaseSpectrum.waveset`: the sampling set, validated (a set containing non-positive wavelengths
+raises instead of being returned) -/
+def Tree.waveset (thr : K) (m : Tree K) : Except Err (Option (List K)) :=
+  match m.sampleset thr with
+  | none => .ok none
+  | some w => do
+      validateWavelengths w
+      pure (some w)
+
 /-- is the root an `Empirical1D` (`isinstance(model, Empirical1D)`; `ExtinctionModel1D` is a subclass) -/
 def Tree.rootTable? : Tree K → Option (Table K)
   | .leaf (.table t) => some t
